@@ -430,6 +430,38 @@ def into_typed_groups_shape():
                  exercises=["impl/src/into.rs::ConversionsAttribute::parse (parse_inner)", "impl/src/into.rs::Expansion"])
 
 
+def into_field_only_shape():
+    """impl/doc/into.md, "Fields": once a field carries its own conversion the whole-struct tuple conversion is generated only if the struct has an
+    attribute of its own - also when that field is at the same time `#[into(skip)]`ped from the tuple (seed
+    C08-skipped-field-conversion-ignored-for-tuple-decision generated the tuple impl of the remaining fields anyway)."""
+    D = "#[derive(Clone, Copy, PartialEq, Debug, derive_more::Into)]\n"
+    decl = (D + "pub struct N1 { #[into(ref)] #[into(skip)] pub a: A, pub b: B }\n" +
+            D + "pub struct N2(#[into(skip)] #[into] pub A, pub B, pub B);\n" +
+            D + "pub struct N3 { pub a: A, #[into] pub b: B }\n" +
+            D + "#[into]\npub struct W1 { #[into(ref)] #[into(skip)] pub a: A, pub b: B }")
+    src = """    #[kani::proof]
+    fn no_tuple_conversion_unless_the_struct_asks_for_it() {
+        assert!(has_from!(&'static A, &'static N1), "the field's own #[into(ref)]");
+        assert!(!has_from!(B, N1) && !has_from!((A, B), N1), "N1: a field has its own conversion and the struct has no attribute: no whole-struct conversion");
+        assert!(has_from!(A, N2) && !has_from!((B, B), N2) && !has_from!((A, B, B), N2), "N2: only the field's own conversion");
+        assert!(has_from!(B, N3) && !has_from!((A, B), N3), "N3: only the field's own conversion");
+        assert!(has_from!(B, W1) && has_from!(&'static A, &'static W1) && !has_from!((A, B), W1), "W1: with a struct-level #[into] the tuple of the non-skipped fields exists");
+        let a = A(kani::any());
+        let b = B(kani::any());
+        let n = N1 { a, b };
+        let r: &A = (&n).into();
+        assert!(ptr::eq(r, &n.a));
+        let w: B = W1 { a, b }.into();
+        assert!(w == b);
+        kani::cover!(true, "reach end");
+    }
+"""
+    hs = [Harness("no_tuple_conversion_unless_the_struct_asks_for_it", "field values free u16 (the impl-set assertions are concrete: rustc's trait resolution)", covers=1,
+                  asserts="field-level conversions exist, the whole-struct tuple conversion exists exactly when the struct has its own #[into] attribute")]
+    return Shape("c08_into_impl_set_field_only", module(decl, src), hs, decl.replace("\n", " "),
+                 exercises=["impl/src/into.rs::expand (struct_attr default)", "impl/src/into.rs::Expansion"])
+
+
 ABSENT_IMPLS = [
     ("unannotated_variant_after_explicit", "no From for an un-annotated variant once a variant carries #[from]",
      "#[derive(derive_more::From)] pub enum E { #[from] A(u8), B(u16) } pub fn f() -> E { E::from(1u16) }"),
@@ -466,6 +498,7 @@ def shapes(tier):
     out = []
     out.append(into_impl_set_shape())
     out.append(into_typed_groups_shape())
+    out.append(into_field_only_shape())
     out.append(plain_shape(St("unit", [])))
     for kind in ("tuple", "named"):
         for n in (0, 1, 2, 3):
